@@ -21,7 +21,7 @@ func init() {
 		Explanation: "Decides the construction order and field provenance of the CRDs derived from an XRD: (R11.1) in genCrdVersion and in ForCompositeResource{,Claim} every store of an author-derived property into the spec/status property maps happens before the machinery properties are written, and none is reachable afterwards, so machinery cannot be shadowed; " +
 			"(R11.2) each field of the version and CRD literals comes from the stated source (Storage from Referenceable, Served/Name from the XRD version, status subresource a literal, schema root BaseProps(), scope a constant per function, group/conversion from the XRD, a single AsController owner reference to the XRD, one version per XRD version); " +
 			"(R11.3) Required, XValidations, OneOf of spec and status and XPreserveUnknownFields of spec receive values derived from the parsed author schema, and the author-property loops have no filter; (R11.4) the claim CRD needs ok(validateClaimNames), which compares all four names and reaches success only past every comparison (or that name's own emptiness); ValidateUpdate compares group, plural and kind of both name sets; the webhook validates before any write and every write is a dry run; " +
-			"(R11.5) both XRD controllers apply exactly the rendered CRD. R11.3 also requires that parseSchema is a pure decode of the author's schema.",
+			"(R11.5) both XRD controllers apply exactly the rendered CRD. R11.3 also requires that parseSchema is a pure decode of the author's schema. (R11.6) the author's metadata.name maxLength is compared with the default limit only (an explicit 0 is honoured).",
 		NotDecided:  []string{"schema fidelity for arbitrary OpenAPI documents", "that exactly one version is referenceable (XRD validation concern)", "API-server defaulting and structural-schema validation"},
 		Assumptions: []string{"map assignment order decides which value a key ends up with"},
 	})
